@@ -7,7 +7,6 @@
 
 import logging
 
-import numpy as np
 import numpy.typing as npt
 
 from ffcx.codegeneration.backend import FFCXBackend
